@@ -16,8 +16,8 @@ ID = "C12"
 CASES = {"quick": 4000, "thorough": 50000}
 FLOOR = {"quick": 3500, "thorough": 45000}
 FLOOR_COUNTERS = {
-    "quick": {"tiny_magnitude_kernels": 250, "normalizer_fits": 1800, "sparse_fits": 1800, "test_kernels_judged": 3500, "weighted_fits": 2000, "estimators_with_a_past": 2500, "fewer_samples_than_active_points": 200, "in_place_entry_points": 3000, "non_default_containers": 1500},
-    "thorough": {"tiny_magnitude_kernels": 3000, "normalizer_fits": 22000, "sparse_fits": 22000, "test_kernels_judged": 45000, "weighted_fits": 25000, "estimators_with_a_past": 30000, "fewer_samples_than_active_points": 2500, "in_place_entry_points": 40000, "non_default_containers": 20000},
+    "quick": {"tiny_magnitude_kernels": 250, "normalizer_fits": 1800, "sparse_fits": 1800, "test_kernels_judged": 3500, "weighted_fits": 2000, "estimators_with_a_past": 2500, "fewer_samples_than_active_points": 200, "in_place_entry_points": 3000, "non_default_containers": 1500, "tiny_magnitude_weights": 400, "more_than_2048_samples": 60},
+    "thorough": {"tiny_magnitude_kernels": 3000, "normalizer_fits": 22000, "sparse_fits": 22000, "test_kernels_judged": 45000, "weighted_fits": 25000, "estimators_with_a_past": 30000, "fewer_samples_than_active_points": 2500, "in_place_entry_points": 40000, "non_default_containers": 20000, "tiny_magnitude_weights": 5000, "more_than_2048_samples": 800},
 }
 RULE = (
     "case = explicit features F (n 2-30, f 1-8, offset so that centring matters), test features (1-40 rows), weights "
@@ -44,6 +44,15 @@ def gen(rng, tier, index):
     if rng.random() < 0.3:  # features in small / large units (exact powers of two)
         u = float(2.0 ** int(rng.integers(-26, 12)))
         F, Ft, off = F * u, Ft * u, off * u
+    many = index % 50 == 9  # more samples than an implementation would process in one block (2048, 4096)
+    if many:
+        n = int(gens.pick(rng, (2049, 2700, 4097, 4500)))
+        f = int(rng.integers(2, 5))
+        nt = int(rng.integers(1, 6))
+        off = rng.normal(size=f) * float(gens.pick(rng, (0.0, 1.0, 10.0)))
+        F = rng.normal(size=(n, f)) * 10.0 ** rng.uniform(-1, 1, size=f) + off
+        F = F[np.argsort(np.linalg.norm(F - F.mean(axis=0), axis=1))]  # ordered data: the last rows are the outliers
+        Ft = rng.normal(size=(nt, f)) * 10.0 ** rng.uniform(-1, 1, size=f) + off
     wk = gens.pick(rng, ("none", "uniform", "random", "integer"))
     M = int(rng.integers(1, max(2, min(n, 12)) + 1))
     few = rng.random() < 0.15  # fewer training samples than (independent) active points
@@ -63,10 +72,12 @@ def gen(rng, tier, index):
         "Ft": Ft,
         "Fa": Fa,
         "w": gens.weights(rng, n, wk),
+        "wunit": float(2.0 ** -int(rng.integers(25, 60))) if rng.random() < 0.2 else 1.0,  # weights of tiny magnitude (Boltzmann factors)
+        "many": bool(many),
         "wkind": wk,
         "with_center": bool((index // 2) % 2),
         "with_trace": bool((index // 4) % 2),
-        "sparse": bool(index % 2),
+        "sparse": bool(index % 2) or bool(many),
         "few": bool(few),
         "xform": gens.pick(rng, forms.PRESENT),
         "carry": gens.pick(rng, forms.CARRY),
@@ -170,12 +181,12 @@ def _run_sparse(case, j):
     rows = wn @ Knm if wc else np.zeros(Knm.shape[1])
     Kc = Knm - rows
     Pm = np.linalg.pinv(Kmm, rcond=1e-10)
-    tr = np.trace(Kc @ Pm @ Kc.T) / n
+    tr = float(np.einsum("ij,ij->", Kc @ Pm, Kc)) / n
     mag = max(float(np.abs(Knm).max()), 1e-300)
     ev = np.linalg.eigvalsh(Kmm)
     if np.any((ev > 1e-13 * ev[-1]) & (ev < 1e-8 * ev[-1])):
         raise Skip("active-kernel-spectrum-near-rcond")
-    if wt and tr <= 1e-9 * max(float(np.trace(Knm @ Pm @ Knm.T)) / n, 1e-300):
+    if wt and tr <= 1e-9 * max(float(np.einsum("ij,ij->", Knm @ Pm, Knm)) / n, 1e-300):
         raise Skip("centred-nystrom-trace-vanishes")
     s = np.sqrt(tr) if wt else 1.0
     est = _with_a_past(j, case, SparseKernelCenterer, n, len(Fa))
@@ -188,7 +199,7 @@ def _run_sparse(case, j):
     if wc:
         j.close("weighted column means of the transformed training block vanish", wn @ T, np.zeros(T.shape[1]), tol)
     if wt:
-        j.close("centred Nystrom kernel has trace n", np.trace(T @ Pm @ T.T), float(n), 1e-7 * n)
+        j.close("centred Nystrom kernel has trace n", float(np.einsum("ij,ij->", T @ Pm, T)), float(n), 1e-7 * n)
     Tt = np.asarray(est.transform(Ktm.copy()))
     j.close("test block uses the training means and scale", Tt, (Ktm - rows) / s, 1e-9 * max(float(np.abs(Ktm).max()), mag) / s)
     j.note("test_kernels_judged")
@@ -210,6 +221,11 @@ def _run_sparse(case, j):
 
 
 def run(case, j):
+    if case.get("w") is not None and case.get("wunit", 1.0) != 1.0:
+        case = dict(case, w=np.asarray(case["w"], dtype=float) * case["wunit"])
+        j.note("tiny_magnitude_weights")
+    if case.get("many"):
+        j.note("more_than_2048_samples")
     if float(np.abs(case["F"]).max()) < 1e-4:
         j.note("tiny_magnitude_kernels")
     if case.get("few") and case["sparse"]:
